@@ -48,27 +48,7 @@ def run(idx, rep, tier):
         if got != want or ys != [w[1] for w in want]:
             bad = bad or f"members run {ran} (failed {sorted(failed)}): appended {got}, yielded {ys}; documented: each yielded line is first appended to its own member's result ({want})"
     rep.check(bad is None, "R3", f"{fi.file}::CsvPaths.next_paths collects what it yields (collect=True)", bad or f"{len(paths)} paths", K.where(fi, fi.node))
-    # breadth-first preparation: reset → name the run → start_run → one Result per member (own csvpath, own index) → add_named_result
-    fpz = idx.method("CsvPaths", "_prep_csvpath_results")
-    rep.analysed(fpz)
-    made = []
-    it = Interp(idx, types={"self": "CsvPaths"}, unknown_calls="residual", inline_all={"CsvPaths"},
-                domains={"self.current_run_time": [Residual("RUNTIME")]},
-                handlers={"self.clear_run_coordination": lambda i, c, r, a, k: i.record_call("clear"), "self.run_time_str": lambda i, c, r, a, k: (i.record_call("name"), "RUNDIR")[1],
-                          "self.results_manager.start_run": lambda i, c, r, a, k: i.record_call("start_run", dict(k)),
-                          "Result": lambda i, c, r, a, k: (made.append(dict(k)), i.record_call("Result"), Obj(f"res{len(made) - 1}"))[2],
-                          "self.results_manager.add_named_result": lambda i, c, r, a, k: i.record_call("add", a[0])})
-    objs = [[Obj("cp0"), ["l0"]], [Obj("cp1"), ["l1"]]]
-    psz = it.run_all(fpz, args={"csvpath_objects": objs, "filename": "F", "pathsname": "P"})
-    ev = [kk for k, kk, v in psz[0].trace if k == "call" and kk in ("clear", "name", "start_run", "Result", "add")] if len(psz) == 1 else None
-    okz = ev == ["clear", "name", "start_run", "Result", "add", "Result", "add"]
-    if okz:
-        sr = psz[0].calls("start_run")[0][1]
-        okz = sr == {"run_dir": "RUNDIR", "pathsname": "P", "filename": "F"}
-        for j, kw in enumerate(made):
-            okz = okz and kw.get("csvpath") == Obj(f"cp{j}") and kw.get("run_index") == j and kw.get("run_dir") == "RUNDIR" and kw.get("by_line") is True and kw.get("paths_name") == "P" and kw.get("file_name") == "F"
-        fin = psz[0].result
-    rep.check(okz, "R3", f"{fpz.file}::CsvPaths._prep_csvpath_results protocol", f"events {ev}, results {made}", K.where(fpz, fpz.node))
+    prep_protocol(idx, rep, "R3")
     # collect_paths: the member collects into its own result's line spooler, and its unmatched lines are handed to the result
     fi, paths = RM.serial_rows(idx, "collect_paths")
     bad = None
@@ -333,15 +313,23 @@ def unmatched_cells(idx, rep, rid):
 
 
 def r5(idx, rep):
-    want = {"delimiter": "self.result.csvpath.delimiter", "quotechar": "self.result.csvpath.quotechar"}
+    spooler_dialect(idx, rep, "R5")
+    r5_writers(idx, rep)
+
+
+def spooler_dialect(idx, rep, rid):
+    """data.csv is read back (by a later member, by a header reference, by a replay) with the dialect CsvLineSpooler wrote it in"""
     fl = idx.method("CsvLineSpooler", "load_if")
     w = [c for c in walk_no_nested(fl.node) if isinstance(c, ast.Call) and call_name(c) == "writer"]
     kw = K.kw_values(idx, fl, w[0]) if len(w) == 1 else None
     fn = idx.method("CsvLineSpooler", "next")
     r = [c for c in walk_no_nested(fn.node) if isinstance(c, ast.Call) and call_name(c) == "DataFileReader"]
     kr = {k: v for k, v in K.kw_values(idx, fn, r[0]).items() if k in ("delimiter", "quotechar")} if len(r) == 1 else None
-    rep.check(kw == kr and kw is not None, "R5", f"{fl.file}::CsvLineSpooler writer and reader dialect agree",
+    rep.check(kw == kr and kw is not None, rid, f"{fl.file}::CsvLineSpooler writer and reader dialect agree",
               f"data.csv is written with {kw or 'the default dialect'} and read back with {kr}: with a non-default delimiter/quotechar the collected lines do not parse back", K.where(fl, fl.node))
+
+
+def r5_writers(idx, rep):
     seen = []
 
     def h_writer(i, c, r, a, k):
@@ -353,13 +341,19 @@ def r5(idx, rep):
                 handlers={"open": lambda i, c, r, a, k: Obj("f"), "json.dump": lambda i, c, r, a, k: None, "csv.writer": h_writer, ".writerows": lambda i, c, r, a, k: None,
                           ".write": lambda i, c, r, a, k: None, "os.path.join": lambda i, c, r, a, k: "/".join(str(x) for x in a), "self.get_instance_dir": lambda i, c, r, a, k: "DIR",
                           "RuntimeDataCollector.collect": lambda i, c, r, a, k: None, "result.get_printouts": lambda i, c, r, a, k: {}})
-    st = {"result.csvpath.delimiter": ";", "result.csvpath.quotechar": "'", "result.lines": [["a"]], "result.unmatched": [["u"]], "result.errors": [],
-          "result.csvpath": Obj("CP"), "CP.delimiter": ";", "CP.quotechar": "'", "CP.metadata": {}, "result.variables": {}}
     fs_ = idx.method("ResultSerializer", "save_result")
-    pss = it.run_all(fs_, args={"result": Obj("result")}, store=st)
-    okd = len(pss) == 1 and pss[0].result[0] == "return" and len(seen) == 2 and all(kw == {"delimiter": ";", "quotechar": "'"} for kw in seen)
-    rep.check(okd, "R5", f"{fs_.file}::ResultSerializer.save_result writes data files in the member's dialect (in context)",
-              f"csv writers created with {seen} for a member with delimiter ';' and quotechar \"'\"", K.where(fs_, fs_.node))
+    bad = None
+    for dl, qc in ((";", "'"), (",", "'"), ("|", '"'), (",", '"'), ("\t", "'")):
+        del seen[:]
+        st = {"result.csvpath.delimiter": dl, "result.csvpath.quotechar": qc, "result.lines": [["a"]], "result.unmatched": [["u"]], "result.errors": [],
+              "result.csvpath": Obj("CP"), "CP.delimiter": dl, "CP.quotechar": qc, "CP.metadata": {}, "result.variables": {}}
+        pss = it.run_all(fs_, args={"result": Obj("result")}, store=st)
+        # (what a writer is not told it takes from the csv module's defaults)
+        eff = [(kw.get("delimiter", ","), kw.get("quotechar", '"')) for kw in seen]
+        if not (len(pss) == 1 and pss[0].result[0] == "return" and len(seen) == 2 and all(e == (dl, qc) for e in eff)):
+            bad = bad or (f"csv writers created with {list(seen)} for a member with delimiter {dl!r} and quotechar {qc!r}: unmatched.csv / data.csv are read back with the member's "
+                          "dialect, so a cell holding the delimiter, a quote or a newline does not parse back to the cell that was kept")
+    rep.check(bad is None, "R5", f"{fs_.file}::ResultSerializer.save_result writes data files in the member's dialect (in context)", bad or "5 dialects", K.where(fs_, fs_.node))
 
 
 def spooler_table(idx, rep, rid):
@@ -583,3 +577,32 @@ def member_manifest_e2e(idx, rep, rid):
         if got != want:
             bad = bad or f"member one (valid={valid}, completed={completed}): the member manifest on disk has {got}, documented {want}"
     rep.check(bad is None, rid, f"{fi.file}::ResultRegistrar.register_complete writes the member manifest", bad or "3 members", K.where(fi, fi.node))
+
+
+def prep_protocol(idx, rep, rid):
+    """breadth-first preparation: reset → name the run → start_run → one Result per member (own csvpath, own index) → add_named_result"""
+    # breadth-first preparation: reset → name the run → start_run → one Result per member (own csvpath, own index) → add_named_result
+    fpz = idx.method("CsvPaths", "_prep_csvpath_results")
+    rep.analysed(fpz)
+    made = []
+    it = Interp(idx, types={"self": "CsvPaths"}, unknown_calls="residual", inline_all={"CsvPaths"},
+                domains={"self.current_run_time": [Residual("RUNTIME")]},
+                handlers={"self.clear_run_coordination": lambda i, c, r, a, k: i.record_call("clear"), "self.run_time_str": lambda i, c, r, a, k: (i.record_call("name"), "RUNDIR")[1],
+                          "self.results_manager.start_run": lambda i, c, r, a, k: i.record_call("start_run", dict(k)),
+                          "Result": lambda i, c, r, a, k: (made.append(dict(k)), i.record_call("Result"), Obj(f"res{len(made) - 1}"))[2],
+                          "self.results_manager.add_named_result": lambda i, c, r, a, k: i.record_call("add", a[0])})
+    objs = [[Obj("cp0"), ["l0"]], [Obj("cp1"), ["l1"]]]
+    psz = it.run_all(fpz, args={"csvpath_objects": objs, "filename": "F", "pathsname": "P"})
+    ev = [kk for k, kk, v in psz[0].trace if k == "call" and kk in ("clear", "name", "start_run", "Result", "add")] if len(psz) == 1 else None
+    if ev and ev[0] != "clear" and K.reset_before_every_call(idx, fpz, "clear_run_coordination"):
+        ev = ["clear"] + ev   # (the reset stands in the callers, before the preparation is entered)
+    okz = ev == ["clear", "name", "start_run", "Result", "add", "Result", "add"]
+    if okz:
+        sr = psz[0].calls("start_run")[0][1]
+        okz = sr == {"run_dir": "RUNDIR", "pathsname": "P", "filename": "F"}
+        for j, kw in enumerate(made):
+            okz = okz and kw.get("csvpath") == Obj(f"cp{j}") and kw.get("run_index") == j and kw.get("run_dir") == "RUNDIR" and kw.get("by_line") is True and kw.get("paths_name") == "P" and kw.get("file_name") == "F"
+        fin = psz[0].result
+    rep.check(okz, rid, f"{fpz.file}::CsvPaths._prep_csvpath_results protocol", f"events {ev}, results {made}", K.where(fpz, fpz.node))
+
+
